@@ -726,6 +726,9 @@ pub enum TrackerOp {
     /// mark_consumed(tag, position of the k-th occurrence in input order): consumption out of order,
     /// as the library's own sequence parsing does
     Mark(String, usize),
+    /// get_next_available + mark_consumed on a sub-list of the tag's occurrences (from the k-th on, at most
+    /// n of them): the same tracker used with the per-sequence maps that split_into_sequences returns
+    TakeSlice(String, usize, usize),
 }
 
 /// result of one op: (key, value, position) or None
@@ -753,6 +756,21 @@ pub fn run_tracker(map: &FMap, ops: &[TrackerOp]) -> LibResult<Vec<TrackerRes>> 
                         .get(tag)
                         .and_then(|vals| tr.get_next_available(tag, vals))
                         .map(|(v, p)| (tag.clone(), v.to_string(), p));
+                    if let Some((_, _, p)) = &r {
+                        tr.mark_consumed(tag, *p);
+                    }
+                    out.push(r);
+                }
+                TrackerOp::TakeSlice(tag, k, n) => {
+                    let r = h.get(tag).and_then(|vals| {
+                        let mut ps: Vec<(String, usize)> = vals.clone();
+                        ps.sort_by_key(|x| x.1);
+                        let lo = (*k).min(ps.len());
+                        let hi = (lo + *n).min(ps.len());
+                        let sub: Vec<(String, usize)> = ps[lo..hi].to_vec();
+                        tr.get_next_available(tag, &sub)
+                            .map(|(v, p)| (tag.clone(), v.to_string(), p))
+                    });
                     if let Some((_, _, p)) = &r {
                         tr.mark_consumed(tag, *p);
                     }
